@@ -171,7 +171,8 @@ FN2 == {  \* two parameters: binding order, left-to-right evaluation, by-value, 
      <<Say(Call("outer", <<Call("helper", <<N(2)>>)>>)), SayS("unreachable")>> >>,
   \* a call with several arguments as the LAST argument of another call (an inner call takes all the arguments that follow it)
   << <<SFunc(0, "pair", <<"a", "b">>, <<Ret(Bin("minus", Var("a"), <<Var("b")>>))>>)>>,
-     <<Say(Call("pair", <<N(10), Call("pair", <<N(5), N(3)>>)>>)), Put(Call("pair", <<Call("pair", <<N(9)>>), N(1)>>), "r"), SayS("unreachable")>> >>,
+     <<Say(Call("pair", <<N(10), Call("pair", <<N(5), N(3)>>)>>)), Put(Bin("plus", N(100), <<N(1), Call("pair", <<N(9), N(4)>>)>>), "r"), Say(Var("r")),
+       Put(Call("pair", <<N(1)>>), "r"), SayS("unreachable")>> >>,
   \* statements run in order, declarations included: a call above the declaration finds no function, a declaration under a
   \* variable of its name fails there (after what was printed before it)
   << <<SayS("before"), Say(Call("ff", <<N(1)>>)), SFunc(0, "ff", <<"a">>, <<Ret(Var("a"))>>), SayS("unreachable")>> >>,
